@@ -349,6 +349,8 @@ pub struct Exec {
     pub completed: bool,
     /// clock counter before/after every operation
     pub tick_ranges: Vec<(u32, u32)>,
+    /// node id behind every file-handle slot after each operation (index = operation index)
+    pub handle_nids: Vec<[Option<crate::model::Nid>; crate::model::NFH]>,
 }
 
 // ---------------------------------------------------------------- panic capture
@@ -655,6 +657,14 @@ pub fn enabled(m: &Model, op: &Op) -> bool {
         Op::DropDir { d } => m.dh[*d as usize].is_some(),
         Op::Stats | Op::StatusFlags | Op::Label | Op::Meta | Op::Remount | Op::DropRemount | Op::Abandon => true,
     }
+}
+
+fn handle_nids(m: &Model) -> [Option<crate::model::Nid>; crate::model::NFH] {
+    let mut a = [None; crate::model::NFH];
+    for (i, h) in m.fh.iter().enumerate() {
+        a[i] = h.as_ref().map(|h| h.nid);
+    }
+    a
 }
 
 /// the last path component is "." or ".."
@@ -1293,6 +1303,7 @@ fn run_epoch<'a>(fs: &'a Fs, cx: &mut RunCtx, i: &mut usize) -> EpochEnd {
         let t_after = cx.ctr.get();
         let expect = model_step(&mut cx.ex.model, op, &res, (t_before, t_after), cx.cfg.atime);
         cx.ex.tick_ranges.push((t_before, t_after));
+        cx.ex.handle_nids.push(handle_nids(&cx.ex.model));
         let needs_alias = res.is_ok() && matches!(op, Op::CreateFile { .. } | Op::CreateDir { .. } | Op::Rename { .. });
         cx.ex.outs.push(res);
         cx.ex.expects.push(expect);
@@ -1512,6 +1523,7 @@ pub fn run(cfg: &Cfg, ops: &[Op], plan: &Plan) -> Exec {
         fs_state_post: None,
         completed: false,
         tick_ranges: Vec::new(),
+        handle_nids: Vec::new(),
     };
     let mut cx = RunCtx { cfg, ops, plan, st: st.clone(), ctr: ctr.clone(), ex };
     let mut i = 0usize;
@@ -1593,6 +1605,7 @@ pub fn run(cfg: &Cfg, ops: &[Op], plan: &Plan) -> Exec {
                 let t_now = cx.ctr.get();
                 let expect = model_step(&mut cx.ex.model, &cx.ops[idx], &res, (t_now, t_now), cfg.atime);
                 cx.ex.tick_ranges.push((t_now, t_now));
+                cx.ex.handle_nids.push(handle_nids(&cx.ex.model));
                 let failed_mount = newfs.is_none();
                 if failed_mount {
                     if let Err(k) = &res {
